@@ -274,7 +274,9 @@ fn gen_mutant(rng: &mut Rng, base_i: usize, base: &Base) -> Option<Mutant> {
         }
         5 => {
             let b = all[1 + rng.usize(all.len() - 1)];
-            let junk = jumbf::make_box(rng.pick(&[b"free", b"xxxx", b"uuid", b"json"]), &rng.bytes(rng.usize(40)));
+            let jl = rng.usize(40);
+            let jb = rng.bytes(jl);
+            let junk = jumbf::make_box(*rng.pick(&[b"free", b"xxxx", b"uuid", b"json"]), &jb);
             let e = if rng.bool() { Edit::InsertBefore(junk) } else { Edit::InsertAfter(junk) };
             (format!("insert-unknown-leaf@{}", level_of(b)), sg::apply_edit(data, &root, b.start, &e))
         }
@@ -311,7 +313,8 @@ fn gen_mutant(rng: &mut Rng, base_i: usize, base: &Base) -> Option<Mutant> {
         }
         11 => {
             let mut v = data.clone();
-            v.extend_from_slice(&rng.bytes(1 + rng.usize(16)));
+            let tl = 1 + rng.usize(16);
+            v.extend_from_slice(&rng.bytes(tl));
             ("trailing-bytes".into(), v)
         }
         12 => {
@@ -327,7 +330,7 @@ fn gen_mutant(rng: &mut Rng, base_i: usize, base: &Base) -> Option<Mutant> {
             // replace a content box by one of another type with the same payload
             let leaves: Vec<&&jumbf::JBox> = all.iter().filter(|b| &b.typ != b"jumb" && &b.typ != b"jumd").collect();
             let b = **rng.pick(&leaves);
-            let nb = jumbf::make_box(rng.pick(&[b"cbor", b"json", b"bidb", b"bfdb", b"uuid"]), &data[b.payload_start()..b.end()]);
+            let nb = jumbf::make_box(*rng.pick(&[b"cbor", b"json", b"bidb", b"bfdb", b"uuid"]), &data[b.payload_start()..b.end()]);
             (format!("retype-{}", b.typ_str().trim()), sg::apply_edit(data, &root, b.start, &Edit::Replace(nb)))
         }
         _ => {
@@ -405,8 +408,32 @@ fn main() {
                 other => Some(format!("{:?}", other.map(|r| r.map(|b| b.len())))),
             }
         } else {
-            judge_mutant(&Mutant { base: 0, kind, bytes }, "replay").violation.map(|v| v.1)
+            judge_mutant(&Mutant { base: 0, kind, bytes: bytes.clone() }, "replay").violation.map(|v| v.1)
         };
+        if let Ok(b1) = verif_hooks::store_reserialize(&bytes, &Context::new()) {
+            println!("replay: mutant vs B1 first diff: {}", sg::first_diff_path(&bytes, &b1));
+            match verif_hooks::store_reserialize(&b1, &Context::new()) {
+                Ok(b2) => println!("replay: second pass ok, equal={}", b2 == b1),
+                Err(e) => println!("replay: second pass error: {e:?}"),
+            }
+            if let (Some(a), Some(b)) = (jumbf::parse_store(&bytes), jumbf::parse_store(&b1)) {
+                let (mut va, mut vb) = (Vec::new(), Vec::new());
+                a.walk(&mut va);
+                b.walk(&mut vb);
+                let pa: Vec<String> = va.iter().filter(|x| &x.typ == b"jumb").map(|x| x.path.clone()).collect();
+                let pb: Vec<String> = vb.iter().filter(|x| &x.typ == b"jumb").map(|x| x.path.clone()).collect();
+                for x in &pa {
+                    if !pb.contains(x) {
+                        println!("replay: only in mutant: {x}");
+                    }
+                }
+                for x in &pb {
+                    if !pa.contains(x) {
+                        println!("replay: only in B1: {x}");
+                    }
+                }
+            }
+        }
         println!("replay: violation={:?}", r);
         std::process::exit(if r.is_some() { 1 } else { 0 });
     }
